@@ -6,7 +6,7 @@
     /\ (forall x, wfd c x = true -> fits c x = true -> esize c x = len (enc c x))
     /\ (forall bs x r r', dec c bs = Value x r -> fits c x = true -> dec c (enc c x ++ r') = Value x r'). *)
 From Coq Require Import ZArith List.
-From VB Require Import Serde.StreamDefs Serde.CodecSpec Serde.StreamProofs Serde.EntityDefs Serde.Theorems.
+From VB Require Import Serde.StreamDefs Serde.CodecSpec Serde.StreamProofs Serde.EntityDefs Serde.Theorems Serde.FitsProofs.
 Local Open Scope Z_scope.
 
 Theorem C11_single_be_int64 : c11_ok c_single_be64.
@@ -79,3 +79,37 @@ Print Assumptions C11_VTB.
 Theorem C11_PopData : forall addr_ok, c11_ok (c_popdata addr_ok).
 Proof. exact popdata_c11. Qed.
 Print Assumptions C11_PopData.
+
+(** Unconditional forms (no [fits] premise) where the canonical sizes of nested buffers are bounded structurally.
+    [c11_full c] (Serde/FitsProofs.v) =
+       (forall x r, wfd c x = true -> dec c (enc c x ++ r) = Value x r)
+    /\ (forall bs x r r', dec c bs = Value x r -> dec c (enc c x ++ r') = Value x r')
+    /\ (forall x, wfd c x = true -> esize c x = len (enc c x)).
+    For MerklePath/VbkTx/VbkPopTx/ATV/VTB/PopData only the [c11_ok] form above is proved (they are the [_partial] ones):
+    the full statement
+       forall bs x r r', dec (c_vtb a) bs = Value x r -> dec (c_vtb a) (enc (c_vtb a) x ++ r') = Value x r'
+    is FALSE at the size limits (the decoder accepts non-canonical encodings that are shorter than the canonical one). *)
+Theorem C11_full_Address : forall addr_ok, c11_full (c_address addr_ok).
+Proof. exact address_full. Qed.
+Print Assumptions C11_full_Address.
+Theorem C11_full_Coin : c11_full c_coin.
+Proof. exact coin_full. Qed.
+Print Assumptions C11_full_Coin.
+Theorem C11_full_Output : forall addr_ok, c11_full (c_output addr_ok).
+Proof. exact output_full. Qed.
+Print Assumptions C11_full_Output.
+Theorem C11_full_BtcTx : c11_full c_btctx.
+Proof. exact btctx_full. Qed.
+Print Assumptions C11_full_BtcTx.
+Theorem C11_full_BtcBlock : c11_full c_btcblock.
+Proof. exact btcblock_full. Qed.
+Print Assumptions C11_full_BtcBlock.
+Theorem C11_full_VbkBlock : c11_full c_vbkblock.
+Proof. exact vbkblock_full. Qed.
+Print Assumptions C11_full_VbkBlock.
+Theorem C11_full_VbkMerklePath : c11_full c_vbkmerklepath.
+Proof. exact vbkmerklepath_full. Qed.
+Print Assumptions C11_full_VbkMerklePath.
+Theorem C11_full_PublicationData : c11_full c_pubdata.
+Proof. exact pubdata_full. Qed.
+Print Assumptions C11_full_PublicationData.
